@@ -613,7 +613,7 @@ def canonical_case(lin: str, vec: dict, flavor: str) -> dict:
 
 
 def run(ctx):
-    ctx.explore(cases(allvec=not ctx.quick), check, max_examples=ctx.n(140, 260))
+    ctx.explore(cases(allvec=not ctx.quick), check, max_examples=ctx.n(140, 500))
     cells = []
     for lin in LINTERS:
         for vec in all_vectors(lin):
